@@ -53,7 +53,7 @@ Definition wit_rec_b : bytes := (
 Definition wit_store_cfg : mem_config :=
   {| c_params := wit_params; c_nfields := 12; c_maxfields := 14; c_level_sites := Some 0%nat;
      c_cfg_init := wit_levels; c_extract := [TSimple (TDelFields [7%nat])]; c_transforms := [];
-     c_outputs := [wit_out]; c_trunc_mode := TruncCopy; c_rw_sets_flag := true |}.
+     c_outputs := [wit_out]; c_trunc_mode := TruncCopy; c_rw_sets_flag := false |}.
 
 Definition wit_after (evs : list mem_event) : mem_gstate :=
   match mem_run wit_store_cfg (mem_init wit_store_cfg) evs with StepOk g => g | StepStop _ => mem_init wit_store_cfg end.
